@@ -18,7 +18,7 @@
 (* documentation of `simplify` says nothing about dangling gate numbers;   *)
 (* they are outside the contract modelled here.                            *)
 (***************************************************************************)
-EXTENDS Integers, Sequences, FiniteSets, TLC
+EXTENDS Integers, Sequences, FiniteSets, TLC, IOUtils
 
 Kinds == {"and", "or", "xor"}
 
@@ -246,4 +246,122 @@ OkAllowed(c, roots, nc, map) ==
    reachable unknown input an `ok` outcome can only satisfy OkAllowed when the
    input does not influence any reachable gate *)
 ErrRequired(c, roots) == ReachableCycle(c, roots)
+
+----------------------------------------------------------------------------
+(* A reference simplifier, written directly from the documentation.  It is
+   NOT used to judge the library (the library may number and order gates
+   differently); the design-level model check (MC_Circuit.cfg) uses it to show
+   that the contract above is satisfiable -- for every tiny circuit it yields
+   an allowed outcome -- and that a circuit in normal form is not folded any
+   further. *)
+
+RECURSIVE TopoR(_, _, _, _)
+TopoR(c, S, done, seq) ==
+  LET ready == {j \in S \ done : GateRefs(c, j) \subseteq done}
+  IN  IF ready = {} THEN seq
+      ELSE LET j == CHOOSE x \in ready : \A y \in ready : x <= y
+           IN  TopoR(c, S, done \cup {j}, Append(seq, j))
+
+SubSeqAt(s, I) == LET ks == KeySeq(I) IN [p \in 1 .. Len(ks) |-> s[ks[p]]]
+FirstOccurrences(s) == SubSeqAt(s, {i \in 1 .. Len(s) : \A p \in 1 .. i - 1 : s[p] # s[i]})
+
+RefFinish(st, k, ins, neg) ==
+  IF Len(ins) = 0 THEN [gates |-> st.gates, lit |-> Flip(IF k = "and" THEN TrueLit ELSE FalseLit, neg)]
+  ELSE IF Len(ins) = 1 THEN [gates |-> st.gates, lit |-> Flip(ins[1], neg)]
+  ELSE LET same == {e \in 1 .. Len(st.gates) : st.gates[e].k = k /\ SameInputs(st.gates[e].ins, ins)}
+       IN  IF same # {} THEN [gates |-> st.gates, lit |-> Flip(GateLit(CHOOSE e \in same : TRUE), neg)]
+           ELSE [gates |-> Append(st.gates, [k |-> k, ins |-> ins]),
+                 lit |-> Flip(GateLit(Len(st.gates) + 1), neg)]
+
+RefGate(st, g) ==
+  LET I == 1 .. Len(g.ins)
+      mapped == [i \in I |-> IF IsGate(g.ins[i]) THEN Flip(st.map[GateIx(g.ins[i])], IsNeg(g.ins[i]))
+                             ELSE g.ins[i]]
+  IN  IF g.k = "xor"
+      THEN LET neg == Parity({i \in I : IsNeg(mapped[i])})
+               pos == SelectSeq([i \in I |-> Positive(mapped[i])], LAMBDA x : x # FalseLit)
+               odd == SelectSeq(FirstOccurrences(pos), LAMBDA x : Count(pos, x) % 2 = 1)
+           IN  RefFinish(st, "xor", odd, neg)
+      ELSE LET dom == IF g.k = "and" THEN FalseLit ELSE TrueLit
+               idn == IF g.k = "and" THEN TrueLit ELSE FalseLit
+               rest == FirstOccurrences(SelectSeq(mapped, LAMBDA x : x # idn))
+           IN  IF (\E i \in I : mapped[i] = dom)
+                  \/ (\E p, q \in 1 .. Len(rest) : rest[p] = Flip(rest[q], TRUE))
+               THEN [gates |-> st.gates, lit |-> dom]
+               ELSE RefFinish(st, g.k, rest, FALSE)
+
+RECURSIVE RefFold(_, _, _, _)
+RefFold(c, order, p, st) ==
+  IF p > Len(order) THEN st
+  ELSE LET r == RefGate(st, c.gates[order[p]])
+       IN  RefFold(c, order, p + 1, [gates |-> r.gates, map |-> st.map @@ (order[p] :> r.lit)])
+
+RefSimplify(c, roots) ==
+  LET R == Reach(c, roots)
+      cyc == CyclicGates(c, roots)
+      unk == ReachUnknown(c, roots)
+  IN  IF cyc # {} THEN [ok |-> FALSE, err |-> GateLit(CHOOSE j \in cyc : TRUE)]
+      ELSE IF unk # {} THEN LET v == CHOOSE v \in unk : TRUE IN [ok |-> FALSE, err |-> <<v[1], v[2], 0>>]
+      ELSE LET st == RefFold(c, TopoR(c, R, {}, <<>>), 1, [gates |-> <<>>, map |-> <<>>])
+           IN  [ok |-> TRUE, c |-> [n |-> c.n, gates |-> st.gates],
+                map |-> [j \in 1 .. NG(c) |-> IF j \in R THEN st.map[j] ELSE UndefLit]]
+
+----------------------------------------------------------------------------
+(* Design-level model check (spec/MC_Circuit.cfg): the initial states are ALL
+   circuits with <= MCN inputs (plus the first unknown input), <= 2 gates of
+   <= 2 literals, with two root sets each; `Pick` computes the reference
+   outcome.  Invariants:
+     EvalIsTable     the tabular evaluator used for trace validation agrees
+                     with the recursive definition Eval on every evaluable gate
+     OutcomeAllowed  the reference outcome satisfies the contract (so the
+                     contract is satisfiable: no correct implementation can be
+                     flagged for lack of an allowed answer)
+     ErrorWhenRequired
+     NormalFormIsFixed  simplifying the result again folds nothing *)
+
+MCN == IF "MC_NMAX" \in DOMAIN IOEnv THEN atoi(IOEnv.MC_NMAX) ELSE 1
+MCLits(n, g) ==
+  {FalseLit, TrueLit} \cup {<<1, i, s>> : i \in 0 .. n, s \in 0 .. 1}
+                     \cup {<<2, j, s>> : j \in 0 .. g - 1, s \in 0 .. 1}
+MCGates(n, g) == {[k |-> k, ins |-> s] : k \in Kinds, s \in UNION {[1 .. len -> MCLits(n, g)] : len \in 0 .. 2}}
+MCCircuits == UNION {{[n |-> n, gates |-> gs] : gs \in [1 .. g -> MCGates(n, g)]} : n \in 0 .. MCN, g \in 1 .. 2}
+MCRoots(c) == {<<GateLit(1)>>, <<Flip(GateLit(NG(c)), TRUE), GateLit(1)>>}
+
+VARIABLE mcst
+MCStart(c) == {[c |-> c, roots |-> r, out |-> [none |-> TRUE]] : r \in MCRoots(c)}
+MCInit == mcst \in UNION {MCStart(c) : c \in MCCircuits}
+Pick == /\ "none" \in DOMAIN mcst.out
+        /\ mcst' = [mcst EXCEPT !.out = RefSimplify(mcst.c, mcst.roots)]
+MCSpec == MCInit /\ [][Pick]_mcst
+
+EvalIsTable ==
+  ("none" \in DOMAIN mcst.out) =>
+    LET c == mcst.c
+        roots == mcst.roots
+        R == Reach(c, roots)
+        ks == KeySeq(InputKeys(c, roots))
+        m == GateTables(c, R, ks)
+    IN  /\ DOMAIN m = Evaluable(c, R)
+        /\ \A j \in DOMAIN m : \A a \in AsgNos(ks) : m[j][a] = Eval(c, GateLit(j), AsgOf(ks, a))
+
+OutcomeAllowed ==
+  ("ok" \in DOMAIN mcst.out) =>
+    IF mcst.out.ok THEN OkAllowed(mcst.c, mcst.roots, mcst.out.c, mcst.out.map)
+                        /\ ~ReachableUnknownInput(mcst.c, mcst.roots)
+    ELSE ErrAllowed(mcst.c, mcst.roots, mcst.out.err)
+
+ErrorWhenRequired ==
+  ("ok" \in DOMAIN mcst.out /\ ErrRequired(mcst.c, mcst.roots)) => ~mcst.out.ok
+
+NormalFormIsFixed ==
+  ("ok" \in DOMAIN mcst.out /\ mcst.out.ok) =>
+    LET nc == mcst.out.c
+        nroots == [i \in 1 .. Len(mcst.roots) |-> ApplyMap(mcst.out.map, mcst.roots[i])]
+        again == RefSimplify(nc, nroots)
+        R == Reach(nc, nroots)
+    IN  /\ again.ok
+        /\ NG(again.c) = Cardinality(R)
+        /\ \A j \in R : IsGate(again.map[j]) /\ ~IsNeg(again.map[j])
+                         /\ again.c.gates[GateIx(again.map[j])].k = nc.gates[j].k
+                         /\ Len(again.c.gates[GateIx(again.map[j])].ins) = Len(nc.gates[j].ins)
 =============================================================================
